@@ -602,6 +602,10 @@ func (env *Env) evalCall(n *ECall) TV {
 		if x.Typ == nil {
 			evalFail("box of untyped value")
 		}
+		if env.bound {
+			// boxing asserts facts about the boxed term; under a binder the term mentions a bound variable
+			evalFail("box(...) is not supported under a quantifier or in a spec body")
+		}
 		return TV{T: e.boxValue(x.T, x.Typ)}
 	case "strat":
 		return TV{T: StrAt(arg(0).T, arg(1).T), Typ: types.Typ[types.Uint8]}
